@@ -152,7 +152,7 @@ def judge(run: Run, records: list[dict]) -> tlc.Validation:
 
 
 def run_mc(tier: str) -> dict:
-    res = tlc.run_tlc("PtGraphMC", "PtGraphMC.cfg" if tier == "quick" else "PtGraphMC5.cfg",
+    res = tlc.run_tlc("PtGraphMC", "PtGraphMC.cfg" if tier == "quick" else "PtGraphMCthorough.cfg",
                       workers=max(2, NCPU // 2), timeout=1200, heap="4g", coverage=True)
     if not res.ok:
         raise MachineryError(f"PtGraphMC failed: {res.violated or res.error or res.out[-600:]}")
